@@ -122,6 +122,9 @@ func evalC02Main(test string) func(c *peCase) evalResult {
 		res := converse(sp, c.Sc, bound(k.sleepBudget()))
 		v, retry := conversationVerdict(c, res, k.expectedEvents())
 		v.Classes = append(append(configClasses(c.Cfg), c02Classes(c.Cfg)...), "level:main")
+		if res.AMF != nil {
+			v.Classes = append(v.Classes, observedClasses(res.AMF)...)
+		}
 		v.Hash = c.hash()
 		if v.Err == nil {
 			// (f) the ">> Configured tests" numbers equal the clamps computed by the harness
@@ -158,13 +161,13 @@ func TestC02_Main(t *testing.T) {
 	var cases []*peCase
 	if ev.Replay() == "" {
 		for k := 0; k < n; k++ {
-			cases = append(cases, gen.Example(int(ev.Seed())+k*7919))
+			cases = append(cases, gen.Example(int(ev.Seed())+k*15485863))
 		}
 		if ev.Tier() == "thorough" && ev.Shard() == 0 {
 			// a few long populations (up to 40 UEs) so that many UEs cross the identity boundaries
 			long := rapid.Custom(genC02Main(40))
 			for k := 0; k < 6; k++ {
-				cases = append(cases, long.Example(int(ev.Seed())+k*104729+1))
+				cases = append(cases, long.Example(int(ev.Seed())+k*32452843+1))
 			}
 		}
 	}
